@@ -1416,6 +1416,19 @@ handle_null_request(int tun_fd, int dns_fd, struct dnsfd *dns_fds, struct query 
  			}
 			upstream_ok = 0;
 		}
+		else if (up_seq != users[userid].inpacket.seqno && up_frag != 0) {
+			/* A packet starts with its fragment 0. This is a late
+			   straggler (held up in some DNS server) of a packet
+			   that was finished or given up long ago; taking it
+			   for the start of a new packet would hand a packet
+			   without its beginning to uncompress(), which only
+			   the packet's contents keep from succeeding. */
+			if (debug >= 1) {
+				fprintf(stderr, "IN   pkt seq# %d, frag %d, dropped stray fragment\n",
+					up_seq, up_frag);
+			}
+			upstream_ok = 0;
+		}
 		else if (up_seq != users[userid].inpacket.seqno) {
 			/* Really new packet has arrived, no recent duplicate */
 			/* Forget any old packet, even if incomplete */
